@@ -11,7 +11,7 @@ from translators import gen_c17
 
 LEVEL = 'proof'
 HARNESS = os.path.join(vf.VERIF, 'harness/py/c17_enum.py')
-OPNAME = {'C': 'call', 'A': 'adapter', 'N': 'call-name', 'G': 'getitem-name', 'I': 'getitem-int', 'F': 'from-string-ci',
+OPNAME = {'C': 'call', 'P': 'call-numpy-int', 'A': 'adapter', 'N': 'call-name', 'G': 'getitem-name', 'I': 'getitem-int', 'F': 'from-string-ci',
           'L': 'iter', 'K': 'len', 'R': 'reversed', 'RT': 'mask-roundtrip', 'B': 'to-bitmask', 'V': 'to-values',
           'MK': 'make-mask', 'MR': 'real-mask', 'ST': 'private-state', 'E': 'enum', 'T': 'synthetic-enum'}
 
@@ -60,6 +60,11 @@ def case_variants(rng, n):
 
 
 UNKNOWN_NAMES = ['NOPE', 'nope', '~', 'x', 'U', '_', '_X', 'u_1', 'Z9']
+HID = {'prefix': '_U', 'sep': '_'}          # set from the generated constants in run()
+
+
+def hname(v):
+    return '%s%s%d' % (HID['prefix'], HID['sep'], v)
 
 
 def snapshot(rng, names, full):
@@ -70,7 +75,7 @@ def snapshot(rng, names, full):
         vs = case_variants(rng, n) if full else [n, n.lower()]
         probe += vs
     probe += UNKNOWN_NAMES if full else rng.sample(UNKNOWN_NAMES, 2)
-    probe = [p for p in dict.fromkeys(probe) if not p.upper().startswith('_U')]
+    probe = [p for p in dict.fromkeys(probe) if not p.upper().startswith(HID['prefix']) and not p.startswith(HID['prefix'])]
     for p in probe:
         lines.append('G %s' % p)
         lines.append('N %s 1' % p)
@@ -96,7 +101,7 @@ def value_history(rng, setup, names, values, order, full, hidden_probes):
         r = rng.random()
         if r < 0.25:
             lines.append('C %s 1' % hx(v))
-        lines.append('%s %s 0' % ('A' if rng.random() < 0.3 else 'C', hx(v)))
+        lines.append('%s %s 0' % (rng.choice('AAAPCCCCCC'), hx(v)))
         seen.append(v)
         r = rng.random()
         if r < 0.45:
@@ -110,7 +115,7 @@ def value_history(rng, setup, names, values, order, full, hidden_probes):
             lines.append(rng.choice(small))
         if hidden_probes and rng.random() < 0.04:
             w = rng.choice(seen)
-            lines += ['G _U_%d' % w, 'G _u_%d' % w, 'N _U_%d 1' % w, 'F _u_%d' % w, 'N _U_%d 0' % w]
+            lines += ['G ' + hname(w), 'G ' + hname(w).lower(), 'N %s 1' % hname(w), 'F ' + hname(w).lower(), 'N %s 0' % hname(w)]
     lines += snapshot(rng, names, full)
     for v in values:
         lines.append('C %s 1' % hx(v))
@@ -146,7 +151,7 @@ def lenient_name_history(rng, setup, names, values):
     lines = [setup, 'L', 'K']
     pre = rng.choice([[], ['C -1 0'], ['C -1 0', 'C -2 0'], ['C 7 0']])
     lines += pre
-    fresh = rng.sample(['Q', 'W', 'q', 'Zz', '_Ux', '_U_7', '_u_9', 'NEWNAME'], 4)
+    fresh = rng.sample(['Q', 'W', 'q', 'Zz', HID['prefix'] + 'x', hname(7), hname(9).lower(), 'NEWNAME'], 4)
     for f in fresh:
         lines += ['N %s 0' % f, 'L', 'K', 'R', 'G %s' % f, 'N %s 1' % f, 'F %s' % f.lower()]
         lines += ['C -1 1', 'C -1 0', 'C -2 1', 'C -2 0', 'C 7 0', 'C 7 1', 'C 9 0']
@@ -206,7 +211,8 @@ def mask_lines(rng, members, off, included, thorough, names_ok):
 
 def classify(op, impl_pub, spec):
     if op in ('L', 'K', 'R'):
-        if '_U' in impl_pub and '_U' not in spec:
+        hid = lambda t: any(x.startswith(HID['prefix']) for x in t.split(' ', 1)[-1].split(','))
+        if hid(impl_pub) and not hid(spec):
             return 'hidden-members-listed'
         return 'view-changed'
     a, b = impl_pub.split()[0], spec.split()[0]
@@ -217,13 +223,91 @@ def classify(op, impl_pub, spec):
             ('SU', 'SM'): 'known-flagged', ('SU', 'SU'): 'value-not-preserved', ('SM', 'SM'): 'wrong-member'}.get((a, b), 'other')
 
 
+def analyse(lines, impl, mdl, fam, ctx=None):
+    """compare one history line by line; yields ('violation', i, signature, got, want) for IMPL != SPEC on a public
+    observable, ('corr', i, text) for IMPL != MODEL, ('advisory', i, text) for differences in private naming/state"""
+    tainted = False
+    table_ok = True
+    for i, (line, a, b) in enumerate(zip(lines, impl, mdl)):
+        op = line.split()[0]
+        if ctx:
+            ctx.count('op:' + OPNAME.get(op, op))
+        ap, bp = a.split(' | '), b.split(' | ')
+        if a.startswith('harness-error') or b.startswith(('driver-error', '?')) or a in ('?', 'refused-second-history-in-one-interpreter'):
+            raise RuntimeError('runner failure on %r: impl=%r model=%r' % (line, a, b))
+        if op in ('E', 'T'):
+            tainted = False
+            table_ok = b.endswith(' 1')
+            if a.split()[:2] != b.split()[:2]:
+                yield ('corr', i, 'enumeration %r: the class has %s, the generated table %s' % (line, a, b))
+            continue
+        if op in ('C', 'A', 'P', 'N', 'G', 'I', 'F', 'L', 'K', 'R'):
+            impl_raw, impl_pub = ap[0], ap[1]
+            mdl_raw, mdl_pub, spec, allowed = bp[0], bp[1], bp[2], bp[3] == '1'
+            if ctx:
+                ctx.case((op, fam, impl_pub.split()[0], line if op in ('L', 'K', 'R') else line.split()[1], tainted), nontrivial=True)
+                ctx.count('outcome:' + impl_pub.split()[0] + ('' if allowed else '/outside-property-histories'))
+            if not allowed and bp[4] == '1':
+                tainted = True           # a lenient conversion of an unknown name defined a member: outside the property's histories
+            if table_ok and (allowed or tainted) and impl_pub != spec:
+                yield ('violation', i, {'history': 'lenient-unknown-name' if tainted else 'values-only', 'op': OPNAME[op],
+                                        'class': classify(op, impl_pub, spec)}, impl_pub, spec)
+            if impl_raw != mdl_raw:
+                if impl_pub == mdl_pub and impl_pub.startswith('SU'):
+                    yield ('advisory', i, 'hidden member naming differs (private): impl %r, model %r' % (impl_raw, mdl_raw))
+                else:
+                    yield ('corr', i, '%s: implementation %r, model %r' % (line, impl_raw, mdl_raw))
+            continue
+        if op in ('ST', 'MK', 'MR'):
+            if 'private-attributes-missing' in a:
+                yield ('advisory', i, 'private attributes of the class are gone; %s compared on public results only' % OPNAME[op])
+                if op != 'ST' and not b.startswith('ok'):
+                    yield ('corr', i, '%s: implementation builds the helper, model %r' % (line, b))
+            elif a != b:
+                yield ('corr', i, '%s: implementation %r, model %r' % (line, a, b))
+            if ctx:
+                ctx.case(('mk', line), nontrivial=(op != 'ST'))
+            continue
+        if op in ('B', 'V', 'RT') and 'nomask' in (a, b):
+            if a != b:
+                yield ('corr', i, '%s: implementation %r, model %r' % (line, a, b))
+            continue
+        if op in ('B', 'V'):
+            if ctx:
+                ctx.case((op, line, a[:1]), nontrivial=True)
+            if 'BAD:' in a:
+                yield ('violation', i, {'history': 'mask', 'op': OPNAME[op], 'class': 'to_string-or-class-inconsistent'}, a, b)
+            elif a != b:
+                yield ('corr', i, '%s: implementation %r, model %r' % (line, a, b))
+            continue
+        if op == 'RT':
+            mdl_raw, spec, pre = bp[0], bp[1], bp[2] == '1'
+            if ctx:
+                ctx.case((op, line, a[:1], pre), nontrivial=True)
+                ctx.count('roundtrip:' + ('defined' if pre else 'outside-precondition') + ':' + a[:1])
+            if pre and a != 'L' + spec[2:]:
+                yield ('violation', i, {'history': 'mask', 'op': 'mask-roundtrip', 'class': 'refused' if a.startswith('X') else 'different-set'}, a, 'L' + spec[2:])
+            if a != mdl_raw:
+                yield ('corr', i, '%s: implementation %r, model %r' % (line, a, mdl_raw))
+            continue
+        raise RuntimeError('unhandled line %r' % line)
+
+
 def run(ctx):
     info = gen_c17.generate()
     ctx.notes.append('generated: %d enum tables, %d masks, prefix %r, separator %r; 16-bit-wire enums %s; modules not importable %s'
                      % (len(info['enums']), len(info['masks']), info['prefix'], info['sep'],
                         [w.split(':')[1] for w in info['wide']], [m for m, _ in info['skipped_modules']]))
+    HID.update(prefix=info['prefix'], sep=info['sep'])
     if not ctx.coq():
         ctx.broken_proof()
+    if ctx.thorough and getattr(ctx, 'coq_ok', False):
+        with vf.Lock('coq'):
+            rc, so, se = vf.sh('timeout 900 coqchk -o -silent -R theories FEC FEC.Properties.C17', cwd=vf.COQ, timeout=930)
+        summary = ' '.join((so + se).split('CONTEXT SUMMARY')[-1].split())[:600]
+        ctx.obligation('coqchk -o over the closure of Properties/C17.vo: no axioms, nothing assumed', rc == 0 and 'Axioms: <none>' in summary, 'coqchk', summary)
+        if not (rc == 0 and 'Axioms: <none>' in summary):
+            ctx.broken_proof('coqchk does not accept the compiled development')
     exe = vf.build_extracted('c17', 'C17', 'c17_driver.ml', conv=False)
     rng = ctx.rng
     enums = [(e['module'] + ':' + e['qualname'], [(n, v) for n, v in e['members']]) for e in info['enums']]
@@ -336,95 +420,38 @@ def run(ctx):
                         lines += ['C 3f 0', 'RT i3f', 'L']
         jobs.append({'family': 'mask', 'lines': lines, 'name': 'mask-syn-%d' % j})
 
+    jobs = [j for j in jobs if j['lines']]
+    if not info['masks']:
+        ctx.notes.append('no enum_bitmask helper found in the package: only synthetic helpers exercised')
     ctx.log('%d histories, %d lines' % (len(jobs), sum(len(j['lines']) for j in jobs)))
     results = run_jobs(exe, jobs)
     ctx.log('ran')
 
-    first = {}          # signature key -> (job, line index, text, sig)
+    first = {}          # signature key -> (job, line index, sig, got, want)
     corr = None
     advisory = set()
     for job, (impl, mdl) in zip(jobs, results):
-        fam = job['family']
-        tainted = False
-        table_ok = True
-        for i, (line, a, b) in enumerate(zip(job['lines'], impl, mdl)):
-            op = line.split()[0]
-            ctx.count('op:' + OPNAME.get(op, op))
-            ap, bp = a.split(' | '), b.split(' | ')
-            if a.startswith('harness-error') or b.startswith(('driver-error', '?')) or a in ('?', 'refused-second-history-in-one-interpreter'):
-                raise RuntimeError('runner failure on %r: impl=%r model=%r' % (line, a, b))
-            if op in ('E', 'T'):
-                tainted = False
-                table_ok = b.endswith(' 1')
-                if a != b:
-                    corr = corr or ('enumeration %r: the class has %s, the generated table %s' % (line, a, b), job, i)
-                continue
-            if op in ('C', 'A', 'N', 'G', 'I', 'F', 'L', 'K', 'R'):
-                impl_raw, impl_pub = ap[0], ap[1]
-                mdl_raw, mdl_pub, spec, allowed = bp[0], bp[1], bp[2], bp[3] == '1'
-                ctx.case((op, fam, impl_pub.split()[0], line if op in ('L', 'K', 'R') else line.split()[1], tainted), nontrivial=True)
-                ctx.count('outcome:' + impl_pub.split()[0] + ('/hidden-namespace' if not allowed else ''))
-                if fam == 'lenient-name' and not allowed and op == 'N' and line.endswith(' 0'):
-                    tainted = True           # a lenient conversion of an unknown name: outside the property's histories
-                if table_ok and (allowed or tainted) and impl_pub != spec:
-                    if tainted:
-                        sig = {'history': 'lenient-unknown-name', 'op': OPNAME[op], 'class': classify(op, impl_pub, spec)}
-                    else:
-                        sig = {'history': 'values-only', 'op': OPNAME[op], 'class': classify(op, impl_pub, spec)}
-                    k = json.dumps(sig, sort_keys=True)
-                    if k not in first:
-                        first[k] = (job, i, sig, impl_pub, spec)
-                if impl_raw != mdl_raw:
-                    if impl_pub == mdl_pub and impl_pub.startswith('SU'):
-                        advisory.add('hidden member naming differs (private): impl %r, model %r' % (impl_raw, mdl_raw))
-                    else:
-                        corr = corr or ('%s: implementation %r, model %r' % (line, impl_raw, mdl_raw), job, i)
-                continue
-            if op in ('ST', 'MK', 'MR'):
-                if 'private-attributes-missing' in a:
-                    advisory.add('private attributes of the class are gone; %s compared on public results only' % OPNAME[op])
-                    if op != 'ST' and not b.startswith('ok'):
-                        corr = corr or ('%s: implementation builds the helper, model %r' % (line, b), job, i)
-                elif a != b:
-                    corr = corr or ('%s: implementation %r, model %r' % (line, a, b), job, i)
-                ctx.case(('mk', line), nontrivial=(op != 'ST'))
-                continue
-            if op in ('B', 'V', 'RT') and 'nomask' in (a, b):
-                if a != b:
-                    corr = corr or ('%s: implementation %r, model %r' % (line, a, b), job, i)
-                continue
-            if op in ('B', 'V'):
-                ctx.case((op, line, a[:1]), nontrivial=True)
-                if 'BAD:' in a:
-                    sig = {'history': 'mask', 'op': OPNAME[op], 'class': 'to_string-or-class-inconsistent'}
-                    first.setdefault(json.dumps(sig, sort_keys=True), (job, i, sig, a, b))
-                elif a != b:
-                    corr = corr or ('%s: implementation %r, model %r' % (line, a, b), job, i)
-                continue
-            if op == 'RT':
-                mdl_raw, spec, pre = bp[0], bp[1], bp[2] == '1'
-                ctx.case((op, line, a[:1], pre), nontrivial=True)
-                ctx.count('roundtrip:' + ('defined' if pre else 'outside-precondition') + ':' + a[:1])
-                if pre and a != 'L' + spec[2:]:
-                    sig = {'history': 'mask', 'op': 'mask-roundtrip', 'class': 'refused' if a.startswith('X') else 'different-set'}
-                    first.setdefault(json.dumps(sig, sort_keys=True), (job, i, sig, a, spec))
-                if a != mdl_raw:
-                    corr = corr or ('%s: implementation %r, model %r' % (line, a, mdl_raw), job, i)
-                continue
-            raise RuntimeError('unhandled line %r' % line)
+        for ev in analyse(job['lines'], impl, mdl, job['family'], ctx):
+            if ev[0] == 'violation':
+                _, i, sig, got, want = ev
+                first.setdefault(json.dumps(sig, sort_keys=True), (job, i, sig, got, want))
+            elif ev[0] == 'corr':
+                corr = corr or (ev[2], job, ev[1])
+            else:
+                advisory.add(ev[2])
 
     for n in sorted(advisory):
         ctx.notes.append('advisory: ' + n)
     for k, (job, i, sig, got, want) in first.items():
         listed = any(f.get('status') == 'known' and all(sig.get(a) == b for a, b in f.get('match', {}).items()) for f in ctx.findings)
-        lines = shrink(exe, job['lines'], i, minimise=not listed)
+        lines = shrink(exe, job['lines'], i, job['family'], sig, minimise=not listed)
         impl, mdl = run_impl(lines), run_model(exe, lines)
         text = ('%s after %s: implementation shows %r, the property requires %r'
                 % (lines[-1], ' ; '.join(lines[:-1]), impl[-1].split(' | ')[-1] if ' | ' in impl[-1] else impl[-1], want))
         ctx.violation(sig, text, {'family': job['family'], 'lines': lines, 'impl': impl, 'model': mdl, 'from': job['name']})
     if corr:
         text, job, i = corr
-        lines = shrink(exe, job['lines'], i)
+        lines = shrink(exe, job['lines'], i, job['family'], 'corr')
         ctx.broken_correspondence('model and implementation differ: ' + text,
                                   {'family': job['family'], 'lines': lines, 'impl': run_impl(lines), 'model': run_model(exe, lines), 'from': job['name']})
     for job, (impl, mdl) in list(zip(jobs, results))[:3]:
@@ -452,30 +479,33 @@ def run(ctx):
         'member names and looked-up names are ASCII (str.upper/lower = ASCII case maps); the translator refuses other member names',
         'arguments are ints (plain, or IntEnum members of the same class): members of *other* enums and floats are outside "any integer"',
         'names given to the lenient name conversion are not attributes of the class (aenum refuses those with TypeError)',
-        '`v in Enum`, `Enum.__members__`, dir() are inherited from the stdlib metaclass and are not observables of this property']
+        '`v in Enum`, `Enum.__members__`, dir() are inherited from the stdlib metaclass, expose hidden members after a lenient conversion, and are not observables of this property (not used by the package)']
 
 
-def shrink(exe, lines, idx, minimise=True):
+def shrink(exe, lines, idx, fam, want, minimise=True):
     """shortest history found (setup line + subset of the state-changing lines before idx + the failing line) on which
-    the implementation still answers the failing line the same way; bounded number of fresh-interpreter runs"""
+    the same event (`want`: a violation signature, or 'corr') still occurs at the last line; bounded number of
+    fresh-interpreter runs"""
     setup = max(i for i in range(idx + 1) if lines[i].split()[0] in ('E', 'T', 'MR'))
     head, target, body = [lines[setup]], lines[idx], lines[setup + 1:idx]
     full = head + body + [target]
     if not minimise:
         return full
-    want = run_impl(full)[-1]
 
     def mutating(l):
         w = l.split()
-        return (w[0] in ('C', 'A', 'N') and w[-1] == '0') or w[0] == 'MK'
-    budget = [16]
+        return (w[0] in ('C', 'A', 'P', 'N') and w[-1] == '0') or w[0] == 'MK'
+    budget = [18]
 
     def same(cand):
         budget[0] -= 1
+        ls = head + cand + [target]
         try:
-            return run_impl(head + cand + [target])[-1] == want
+            evs = list(analyse(ls, run_impl(ls), run_model(exe, ls), fam))
         except RuntimeError:
             return False
+        last = [e for e in evs if e[1] == len(ls) - 1]
+        return any((e[0] == 'corr') if want == 'corr' else (e[0] == 'violation' and e[2] == want) for e in last)
     cur = [l for l in body if mutating(l)]
     if not same(cur):
         return full
@@ -486,8 +516,8 @@ def shrink(exe, lines, idx, minimise=True):
     n = 2
     while len(cur) > 1 and budget[0] > 0:
         size = max(1, len(cur) // n)
-        for s in range(0, len(cur), size):
-            cand = cur[:s] + cur[s + size:]
+        for s_ in range(0, len(cur), size):
+            cand = cur[:s_] + cur[s_ + size:]
             if budget[0] > 0 and same(cand):
                 cur, n = cand, max(n - 1, 2)
                 break
